@@ -33,6 +33,7 @@ structure StepOK (K N : Nat) (st : State) (t : Nat) (b : Bool) : Prop where
   ok : (st.th t).op.ok K N st.sh
   node : (st.th t).loc.node.getD 0 < K
   beyond : Beyond st.sh
+  nodesBelow : st.sh.nNodes ≤ K
   noHandover : ∀ h r x m, (st.th t).op.pp? = some (.h7 h r x m) → (st.sh.nodes h.who).control ≠ h.ctl
   room : ∀ v, (st.sh.heap (alloc st.sh v).2.1).cnt = 0
   next : ∀ txt o rest, (st.th t).prog = (txt, o) :: rest → o.below N ∧ (∀ c h, o = .mk c h → st.sh.cells c = none)
@@ -41,7 +42,7 @@ structure StepOK (K N : Nat) (st : State) (t : Nat) (b : Bool) : Prop where
 theorem Ledger.step {K N T : Nat} {st : State} (h : Ledger K N T st) (t : Nat) (b : Bool) (ht : t < T)
     (hs : StepOK K N st t b) : Ledger K N T (microStep st t b).1 := by
   intro a ha
-  have hc := microStep_cons K N st t b hs.ok hs.node hs.beyond hs.noHandover hs.room hs.next hs.noFault a ha
+  have hc := microStep_cons K N st t b hs.ok hs.node hs.beyond hs.nodesBelow hs.noHandover hs.room hs.next hs.noFault a ha
   have hoth := (microStep_own st t b).2
   have hsum := @sumN_upd (fun t' => uOp (st.th t').op a) (fun t' => uOp ((microStep st t b).1.th t').op a) T t ht
     (fun m hm => by rw [hoth m hm])
@@ -120,7 +121,7 @@ namespace M
 
 /-- non-vacuity: a concrete execution (one thread creating a value) satisfies `GoodRun` -/
 example : GoodRun 1 4 1 (State.initial {} (fun t => if t = 0 then [("new h0 5", .new 0 5)] else [])) [(0, false)] := by
-  refine ⟨by decide, ⟨trivial, by decide, ?_, ?_, ?_, ?_, by decide⟩, trivial⟩
+  refine ⟨by decide, ⟨trivial, by decide, ?_, by decide, ?_, ?_, ?_, by decide⟩, trivial⟩
   · intro n _; exact ⟨fun _ => rfl, rfl⟩
   · intro h r x m hh; simp [State.initial, OpSt.pp?] at hh
   · intro v; rfl
